@@ -103,4 +103,117 @@ def checkPPTDual (sys : Nat) (ens : Ensemble (dA * dB)) (Y : EMat (dA * dB) (dA 
       (fun i => matAt Q i) (fun i => matAt LQ i) (fun i => matAt LS i)
   else none
 
+/-! ## The programs `ppt_distinguishability` hands to the solver, as lists of constraint expressions
+
+In the order in which the code adds its constraints:
+
+* `_min_error_primal`: `M_i ≽ 0` (all `i`), `Σ_i M_i = 1`, `T_sys(M_i) ≽ 0` (all `i`); with `strategy = "unambig"` there is
+  one more operator `M_k` (the inconclusive outcome), followed by `⟨p_j ρ_j, M_i⟩ = 0` for `i ≠ j`, `i, j < k`;
+* `_min_error_dual`: `Y − p_i ρ_i − T_sys(Q_i) ≽ 0` (all `i`), `Q_i ≽ 0` (all `i`).
+
+The checkers above verify exactly these expressions (`Toq.C12.checkPPTPrimalFn_iff_program`, `…Dual…`). -/
+
+/-- operators the primal program constrains to be PSD: `M_0 … M_{k-1}`, then `T(M_0) … T(M_{k-1})` -/
+def primalPsdExprs (sys k : Nat) (M : Fin k → EMat (dA * dB) (dA * dB)) : List (EMat (dA * dB) (dA * dB)) :=
+  (List.finRange k).map M ++ (List.finRange k).map fun i => pT sys (M i)
+
+/-- residual of the primal equality `Σ_i M_i = 1` -/
+def primalEqResidual (k : Nat) (M : Fin k → EMat (dA * dB) (dA * dB)) : EMat (dA * dB) (dA * dB) :=
+  sumMats k M - one
+
+/-- slack of the `i`-th dual constraint -/
+def dualSlack (sys k : Nat) (ρ : Fin k → EMat (dA * dB) (dA * dB)) (p : Fin k → Rat)
+    (Y : EMat (dA * dB) (dA * dB)) (Q : Fin k → EMat (dA * dB) (dA * dB)) (i : Fin k) : EMat (dA * dB) (dA * dB) :=
+  Y - smul (p i) (ρ i) - pT sys (Q i)
+
+/-- operators the dual program constrains to be PSD: the slacks, then `Q_0 … Q_{k-1}` -/
+def dualPsdExprs (sys k : Nat) (ρ : Fin k → EMat (dA * dB) (dA * dB)) (p : Fin k → Rat)
+    (Y : EMat (dA * dB) (dA * dB)) (Q : Fin k → EMat (dA * dB) (dA * dB)) : List (EMat (dA * dB) (dA * dB)) :=
+  (List.finRange k).map (dualSlack sys k ρ p Y Q) ++ (List.finRange k).map Q
+
+/-! ## `strategy = "unambig"` (primal form only; the dual form raises `ValueError`) -/
+
+/-- left-hand side of the constraint `⟨p_j ρ_j, M_i⟩ = 0` (`= tr(p_j ρ_j M_i)` for Hermitian `M_i`) -/
+def unambOverlap (k : Nat) (ρ : Fin k → EMat (dA * dB) (dA * dB)) (p : Fin k → Rat)
+    (M : Fin (k + 1) → EMat (dA * dB) (dA * dB)) (i j : Fin k) : QI :=
+  ((smul (p j) (ρ j)).mul (M i.castSucc)).trace
+
+/-- all overlaps `⟨p_j ρ_j, M_i⟩`, `i ≠ j`, vanish exactly -/
+def unambZeroOk (k : Nat) (ρ : Fin k → EMat (dA * dB) (dA * dB)) (p : Fin k → Rat)
+    (M : Fin (k + 1) → EMat (dA * dB) (dA * dB)) : Bool :=
+  allFin k fun i => allFin k fun j => decide (i = j) || decide (unambOverlap k ρ p M i j = 0)
+
+/-- objective `Σ_{i<k} p_i Re tr(ρ_i M_i)` (the inconclusive outcome `M_k` does not count) -/
+def pptUnambValueFn (k : Nat) (ρ : Fin k → EMat (dA * dB) (dA * dB)) (p : Fin k → Rat)
+    (M : Fin (k + 1) → EMat (dA * dB) (dA * dB)) : Rat :=
+  minErrValueFn k ρ p fun i => M i.castSucc
+
+/-- unambiguous PPT primal: `k + 1` operators forming a PPT measurement, `⟨p_j ρ_j, M_i⟩ = 0` for `i ≠ j` -/
+def checkPPTUnambPrimalFn (sys k : Nat) (ρ : Fin k → EMat (dA * dB) (dA * dB)) (p : Fin k → Rat)
+    (M LM LT : Fin (k + 1) → EMat (dA * dB) (dA * dB)) : Option Rat :=
+  if povmPsdOk (k + 1) M LM && povmSumOk (k + 1) M && pptPsdOk sys (k + 1) M LT && unambZeroOk k ρ p M then
+    some (pptUnambValueFn k ρ p M)
+  else none
+
+/-- list interface: one more operator than there are states -/
+def checkPPTUnambPrimal (sys : Nat) (ens : Ensemble (dA * dB)) (M LM LT : List (EMat (dA * dB) (dA * dB))) :
+    Option Rat :=
+  if ens.probs.length == ens.size && lens3Ok (ens.size + 1) M.length LM.length LT.length then
+    checkPPTUnambPrimalFn sys ens.size (fun i => ens.state i) (fun i => ens.prob i)
+      (fun i => matAt M i) (fun i => matAt LM i) (fun i => matAt LT i)
+  else none
+
+/-! ## Argument handling of the two functions -/
+
+/-- which program `ppt_distinguishability(primal_dual, strategy)` builds -/
+inductive PPTProgram where
+  /-- `_min_error_primal`: `extra` = one more operator than states (`strategy != "min_error"`), `zeroCons` = the constraints
+  `⟨p_j ρ_j, M_i⟩ = 0` are added (`strategy == "unambig"`) -/
+  | primal (extra zeroCons : Bool)
+  /-- `_min_error_dual` -/
+  | dual
+deriving DecidableEq, Repr
+
+/-- `if primal_dual == "primal": return _min_error_primal(…)`, otherwise `_min_error_dual(…)`, which raises `ValueError` unless
+`strategy == "min_error"` -/
+def pptDispatch (primalDual strategy : String) : Except String PPTProgram :=
+  if primalDual == "primal" then
+    .ok (.primal (strategy != "min_error") (strategy == "unambig"))
+  else if strategy != "min_error" then .error "ValueError"
+  else .ok .dual
+
+/-- the `dim` argument of `symmetric_extension_hierarchy`: `None`, an `int`, or a list `[dim_x, dim_y]` -/
+inductive HDimArg where
+  | omitted | scalar (d : Nat) | pair (dx dy : Nat)
+deriving DecidableEq, Repr
+
+/-- `int(np.round(np.sqrt(N)))` -/
+def roundSqrtN (N : Nat) : Nat :=
+  let s := Nat.sqrt N
+  if N - s * s ≤ s then s else s + 1
+
+/-- a scalar `dim` is expanded to `[dim, dim_xy / dim]` and must divide `dim_xy` (`dim = 0` is not a dimension) -/
+def scalarDims (dimXY d : Nat) : Except String (Nat × Nat) :=
+  if d = 0 then .error "ZeroDim"
+  else if dimXY % d ≠ 0 then .error "ValueError"
+  else .ok (d, dimXY / d)
+
+/-- `(dim_x, dim_y)` as `symmetric_extension_hierarchy` computes them from `dim_xy = states[0].shape[0]` and `dim` -/
+def symExtDims (dimXY : Nat) : HDimArg → Except String (Nat × Nat)
+  | .pair a b => .ok (a, b)
+  | .scalar d => scalarDims dimXY d
+  | .omitted => scalarDims dimXY (roundSqrtN dimXY)
+
+/-- `dim_list = [dim_x] + [dim_y] * level` -/
+def symExtDimList (dx dy level : Nat) : List Nat := dx :: List.replicate level dy
+
+/-- `sys_list = list(range(2, 2 + level - 1))`: the copies of `Y` that are traced out -/
+def symExtSysList (level : Nat) : List Nat := List.range' 2 (level - 1)
+
+/-- the subsystems whose partial transpose is constrained: `[0]`, then `[sys + 2] for sys in range(level - 1)` -/
+def symExtPTList (level : Nat) : List Nat := 0 :: (List.range (level - 1)).map (· + 2)
+
+/-- size `np.prod(dim_list)` of the extension variables -/
+def symExtSize (dx dy level : Nat) : Nat := (symExtDimList dx dy level).foldl (· * ·) 1
+
 end Toq.PPTDisc
